@@ -149,6 +149,18 @@ Theorem bitmap_truncation : forall (b : list N) (off len i : nat), i < len ->
 Proof. exact bit_slice_spec. Qed.
 Print Assumptions bitmap_truncation.
 
+(* The byte-level writer model (C04_Write.w_arr, compared with the real writer buffer by buffer) and the
+   type-level walk agree: for every array tree that has the shape of its type, every slice the writer may take of
+   it (s, l, ArrayData- or Array-level) and enough fuel, the model emits exactly as many field nodes and buffers
+   as w_walk lists, and w_walk consumes exactly the variadic counts the array contributes. *)
+Theorem writer_model_follows_walk : forall (v5 : bool) (t : dty) (a : parr), shaped t a ->
+  forall (fuel s l : nat) (proper : bool), depth a < fuel ->
+  forall q, let '(toks, rest) := w_walk t v5 (var_counts a ++ q) in
+            length (fst (w_arr fuel v5 a s l proper)) = nodes_of toks /\
+            length (snd (w_arr fuel v5 a s l proper)) = length (bufs_of toks) /\ rest = q.
+Proof. exact w_arr_counts. Qed.
+Print Assumptions writer_model_follows_walk.
+
 (* ---------------------------------------------------------------- Flight split ------------------- *)
 (* split_batch_for_grpc_response, for every batch, buffer size and size limit (a zero limit divides by zero in
    Rust and is excluded by the model's Nat division convention only through n_batches >= 1): the loop ends
